@@ -19,7 +19,7 @@ RULE = (
     "non-trivial = the screen has >=2 plates and the op is not a no-op on the model"
 )
 ASSUMPTIONS = ["revealing a set consisting only of unknown plate ids may either raise ValueError or return the screen unchanged", "refusal of all-zero values is judged only when every plate of the revealed set is all zero"]
-REQUIRED = {"long_reveal_requests_with_a_far_away_unknown_id": {"quick": 20, "thorough": 300}, "refused_set_observed_calls": {"quick": 200, "thorough": 3000}, "constructor_cases_with_a_library_size_plate": {"quick": 6, "thorough": 6}, "constructor_cases_with_non_bool_mask": {"quick": 60, "thorough": 900}, "view_plate_counts_checked": {"quick": 500, "thorough": 8000}, "cli_refusals_checked": {"quick": 60, "thorough": 800}, "constructor_cases_with_unusual_values": {"quick": 40, "thorough": 600}, "reveals_with_negative_unknown_id": {"quick": 60, "thorough": 900}, "history_steps_checked": {"quick": 2500, "thorough": 40000}, "reveals_checked": {"quick": 600, "thorough": 10000}, "refusals_checked": {"quick": 100, "thorough": 1500}, "constructor_cases": {"quick": 150, "thorough": 2500}, "cli_steps": {"quick": 100, "thorough": 1500}, "earlier_stage_rechecks": {"quick": 10000, "thorough": 150000}, "branches": {"quick": 200, "thorough": 3000}, "in_place_reveals": {"quick": 150, "thorough": 2000}}
+REQUIRED = {"set_observed_on_screens_built_from_arrays_in_another_container": {"quick": 60, "thorough": 1000}, "long_reveal_requests_with_a_far_away_unknown_id": {"quick": 20, "thorough": 300}, "refused_set_observed_calls": {"quick": 200, "thorough": 3000}, "constructor_cases_with_a_library_size_plate": {"quick": 6, "thorough": 6}, "constructor_cases_with_non_bool_mask": {"quick": 60, "thorough": 900}, "view_plate_counts_checked": {"quick": 500, "thorough": 8000}, "cli_refusals_checked": {"quick": 60, "thorough": 800}, "constructor_cases_with_unusual_values": {"quick": 40, "thorough": 600}, "reveals_with_negative_unknown_id": {"quick": 60, "thorough": 900}, "history_steps_checked": {"quick": 2500, "thorough": 40000}, "reveals_checked": {"quick": 600, "thorough": 10000}, "refusals_checked": {"quick": 100, "thorough": 1500}, "constructor_cases": {"quick": 150, "thorough": 2500}, "cli_steps": {"quick": 100, "thorough": 1500}, "earlier_stage_rechecks": {"quick": 10000, "thorough": 150000}, "branches": {"quick": 200, "thorough": 3000}, "in_place_reveals": {"quick": 150, "thorough": 2000}}
 N_HIST = {"quick": 960, "thorough": 9600}
 
 
@@ -385,7 +385,17 @@ def run_shard(rec, tier, seed, shard, nshards):
         except ValueError:
             pass
         # (c) set_observed
-        s = Screen(**dict(kw, observation_mask=np.zeros(n, dtype=bool)))
+        kw_s = dict(kw, observation_mask=np.zeros(n, dtype=bool))
+        containers = None
+        if rng.random() < 0.4 and "observations" in kw:
+            # the caller's arrays live in another container: read-only (a memory map, a pandas column under
+            # copy-on-write, np.broadcast_to), every second element of a bigger buffer, a reversed view, a window
+            o_d, k_o = kit.dress(rng, np.asarray(kw["observations"], dtype=float), kind=str(rng.choice(["readonly", "readonly", "strided", "reversed", "offset"])))
+            m_d, k_m = kit.dress(rng, np.zeros(n, dtype=bool), kind=str(rng.choice(["plain", "readonly", "strided", "offset"])))
+            kw_s = dict(kw, observations=o_d, observation_mask=m_d)
+            containers = (k_o, k_m)
+            rec.count("set_observed_on_screens_built_from_arrays_in_another_container")
+        s = Screen(**kw_s)
         before = s.observations.copy()
         sel = np.zeros(n, dtype=bool)
         for p in rng.choice(np.unique(pn), size=int(rng.integers(1, len(np.unique(pn)) + 1)), replace=False):
@@ -416,7 +426,22 @@ def run_shard(rec, tier, seed, shard, nshards):
                 rec.check(same, "C12/set_observed/refused-call-left-a-trace", lambda: "set_observed refused a call (%s) but afterwards the mask / values / number of unobserved plates differ: %d rows observed (0 before), %d unobserved plates (%d before)" % (what, int(s.observation_mask.sum()), len([p_ for p_ in s.plates if not p_.is_observed]), n_un0), {"sel": sel.tolist(), "refused": what})
                 if not same:
                     break
-        s.set_observed(sel, vals)
+        if containers is not None:
+            # either the delivery is stored exactly (checked below) or - storage the screen cannot write to - it is
+            # refused and leaves no trace; it is never accepted and dropped
+            try:
+                s.set_observed(sel, vals)
+            except ValueError as e:
+                rec.count("set_observed_refused_on_read_only_storage")
+                # (what the property speaks about: no row becomes observed by a refused delivery and no other row's value
+                # changes.  Values written behind the mask before a read-only MASK stopped the call are not covered by it -
+                # the first version of this monitor demanded them unchanged too and fired on the unchanged tree, DESIGN 0.2)
+                same = bool(np.array_equal(s.observation_mask, m0)) and kit.bytes_equal(np.ascontiguousarray(s.observations[~sel]), np.ascontiguousarray(o0[~sel])) and len([p_ for p_ in s.plates if not p_.is_observed]) == n_un0
+                rec.check("readonly" in containers, "C12/set_observed/raises", lambda: "set_observed raised %r on a screen whose arrays are writeable (%r)" % (e, containers), {"containers": list(containers)})
+                rec.check(same, "C12/set_observed/refused-call-left-a-trace", lambda: "set_observed refused a delivery (%r, arrays %r) but the mask / values changed" % (e, containers), {"containers": list(containers)})
+                continue
+        else:
+            s.set_observed(sel, vals)
         rec.check(kit.bytes_equal(s.observations[sel], vals) and kit.bytes_equal(s.observations[~sel], before[~sel]), "C12/set_observed/values", "set_observed stored other values or touched other rows", {"sel": sel.tolist()})
         rec.check(bool(np.array_equal(s.observation_mask, sel)), "C12/set_observed/mask", "set_observed marked other rows", {"sel": sel.tolist()})
 
